@@ -76,6 +76,10 @@ fn composition_steps(n: usize, comp: u64, mode: u64) -> Vec<Step> {
         if cut {
             if mode == 4 {
                 steps.push(Step::Fail(TRANSIENT[(i + run) % TRANSIENT.len()]));
+            } else if mode == 5 {
+                if i + 1 > run {
+                    steps.push(Step::End); // the previous piece is exhausted before this one is delivered
+                }
             } else if mode >= 1 {
                 steps.push(Step::Pending);
             }
@@ -85,6 +89,7 @@ fn composition_steps(n: usize, comp: u64, mode: u64) -> Vec<Step> {
     }
     if mode == 4 {
         steps.push(Step::Fail(TRANSIENT[n % TRANSIENT.len()]));
+    } else if mode == 5 {
     } else if mode >= 1 {
         steps.push(Step::Pending); // also before the read that meets EOF / after the last chunk
     }
@@ -147,15 +152,17 @@ fn case_compositions<F: Family>(input: &Input, ctx: &mut Ctx) -> CaseResult {
     compare::<F>(data, &one, &one, "one-shot").map_err(Violation::new)?;
     let mut runs = 0u64;
     for comp in first..first + count {
-        for mode in 0..5u64 {
+        for mode in 0..6u64 {
             // mode 3 = mode 2 continuing from a clone of the caller-held state;
-            // mode 4 = a transient transport failure before every read, after which the caller polls again
-            let steps = composition_steps(data.len(), comp, if mode == 4 { 4 } else { mode.min(2) });
+            // mode 4 = a transient transport failure before every read, after which the caller polls again;
+            // mode 5 = the stream arrives as successive slices: each piece ends with an empty read, the decoder answers
+            //          "end of input", and the caller polls again with the same state once the next piece is there
+            let steps = composition_steps(data.len(), comp, if mode >= 4 { mode } else { mode.min(2) });
             let drop_mask = if mode == 2 || mode == 3 { u64::MAX } else { 0 };
             // the transport's way of filling the ReadBuf alternates with the composition
             let style = ((comp ^ mode) & 1) as u8 | if mode == 3 { 2 } else { 0 } | if mode == 4 { ((comp % 6) as u8) << 4 } else { 0 };
             let run = fam::dec_poll_styled::<F>(data, &steps, drop_mask, None, true, style);
-            let what = format!("{} composition {:#b} of {} bytes, mode {} ({}), transport fill style {}", F::FAM.name(), comp, data.len(), mode, ["no Pending", "Pending before every read", "Pending before every read, future dropped and re-created at every Pending", "Pending before every read, future re-created from a clone of the state at every Pending", "a transient transport failure (Interrupted / WouldBlock / TimedOut) before every read, polled again with the same state"][mode as usize], style);
+            let what = format!("{} composition {:#b} of {} bytes, mode {} ({}), transport fill style {}", F::FAM.name(), comp, data.len(), mode, ["no Pending", "Pending before every read", "Pending before every read, future dropped and re-created at every Pending", "Pending before every read, future re-created from a clone of the state at every Pending", "a transient transport failure (Interrupted / WouldBlock / TimedOut) before every read, polled again with the same state", "successive slices: an empty read at the end of every piece, polled again with the same state"][mode as usize], style);
             if let Err(m) = compare::<F>(data, &one, &run, &what) {
                 ctx.refine = Some((if F::FAM == crate::model::Fam::V3 { "c05.schedule.v3" } else { "c05.schedule.v5" }, Input::Nums(vec![si as u64, comp, mode])));
                 return Err(Violation::new(m));
@@ -169,7 +176,7 @@ fn case_compositions<F: Family>(input: &Input, ctx: &mut Ctx) -> CaseResult {
     ctx.label(if one.result.is_ok() { "stream:accepted" } else { "stream:rejected-or-incomplete" });
     if first == 0 {
         ctx.label(&format!("stream-type:{}", type_name(data[0] >> 4)));
-        ctx.sample(|| format!("{} stream {} ({} bytes): compositions {}.. x 5 modes; one-shot result {:?}", F::FAM.name(), hex_short(data, 24), data.len(), first, one.result.as_ref().map(|o| o.total)));
+        ctx.sample(|| format!("{} stream {} ({} bytes): compositions {}.. x 6 modes; one-shot result {:?}", F::FAM.name(), hex_short(data, 24), data.len(), first, one.result.as_ref().map(|o| o.total)));
     }
     Ok(())
 }
@@ -180,7 +187,7 @@ fn case_schedule<F: Family>(input: &Input, ctx: &mut Ctx) -> CaseResult {
     let streams = short_streams::<F>();
     let data = streams.get(n[0] as usize).ok_or_else(|| Violation::new("MQV-INTERNAL: stream index out of range"))?;
     let one = fam::dec_poll_scripted::<F>(data, &[], 0, None, true);
-    let steps = composition_steps(data.len(), n[1], if n[2] == 4 { 4 } else { n[2].min(2) });
+    let steps = composition_steps(data.len(), n[1], if n[2] >= 4 { n[2] } else { n[2].min(2) });
     let style = ((n[1] ^ n[2]) & 1) as u8 | if n[2] == 3 { 2 } else { 0 } | if n[2] == 4 { ((n[1] % 6) as u8) << 4 } else { 0 };
     let run = fam::dec_poll_styled::<F>(data, &steps, if n[2] == 2 || n[2] == 3 { u64::MAX } else { 0 }, None, true, style);
     compare::<F>(data, &one, &run, &format!("composition {:#b} mode {}", n[1], n[2])).map_err(Violation::new)?;
@@ -195,7 +202,11 @@ fn random_steps(t: &mut Tape, len: usize) -> Vec<Step> {
     (0..n)
         .map(|_| {
             if failing && t.chance(1, 5) {
-                Step::Fail(TRANSIENT[t.pick(TRANSIENT.len())])
+                if t.flag() {
+                    Step::End
+                } else {
+                    Step::Fail(TRANSIENT[t.pick(TRANSIENT.len())])
+                }
             } else if t.chance(1, 3) {
                 Step::Pending
             } else {
@@ -283,6 +294,9 @@ fn case_random<F: Family>(input: &Input, ctx: &mut Ctx) -> CaseResult {
         }
         if run.resumed_after_error > 0 {
             ctx.label("resumed-after-transient-transport-failure");
+        }
+        if run.resumed_after_end > 0 {
+            ctx.label("resumed-after-the-end-of-a-piece");
         }
         let what = format!("{} stream [{}] under schedule {:?}, drop mask {:#x}, transport fill style {}", F::FAM.name(), origin, &steps[..steps.len().min(24)], drop_mask, style);
         compare::<F>(&data, &one, &run, &what).map_err(Violation::new)?;
@@ -465,7 +479,7 @@ pub fn run(env: &mut Env) -> RunResult {
     let (b5, u5, n5) = blocks::<V5>(max_len);
     let n = b5.len() as u64;
     env.run_enum(SUB_C5, n, true, move |i| b5[i as usize].clone())?;
-    env.note(format!("exhaustive part: every composition x 5 modes (no Pending; Pending before every read; future dropped and re-created at every Pending; the same continuing from a clone of the state; a transient transport failure before every read) for {} of {} v3 and {} of {} v5 short streams (length <= {})", u3, n3, u5, n5, max_len));
+    env.note(format!("exhaustive part: every composition x 6 modes (successive slices with the same state; no Pending; Pending before every read; future dropped and re-created at every Pending; the same continuing from a clone of the state; a transient transport failure before every read) for {} of {} v3 and {} of {} v5 short streams (length <= {})", u3, n3, u5, n5, max_len));
     let n = env.tier.sel(20_000, 250_000);
     env.run_tapes(SUB_R3, n, 260)?;
     env.run_tapes(SUB_R5, n * 2, 360)?;
@@ -497,6 +511,7 @@ pub fn run(env: &mut Env) -> RunResult {
         env.require(s, "transport-fills-by-initialize-and-advance");
         env.require(s, "resumed-from-cloned-state");
         env.require(s, "resumed-after-transient-transport-failure");
+        env.require(s, "resumed-after-the-end-of-a-piece");
         env.require(s, "origin:large-connect");
         for l in ["dropped-at-pending", "pending-inside-var-int", "header-width:2", "header-width:3", "stream:accepted", "stream:rejected-or-incomplete"] {
             env.require(s, l);
